@@ -40,7 +40,7 @@ Options ==
    O("-sp", <<>>, "perfectline", <<"shown">>, {"ylim", "yticks", "yticklabels", "xlim", "xticks", "xticklabels", "legend"}),
    O("-aspect", <<"2", "0.5">>, "aspect", <<"2", "0.5">>, {"xlim", "ylim", "xticks", "yticks", "xticklabels", "yticklabels"}),
    O("-fs", <<"10,4", "3,7">>, "figsize", <<"10,4", "3,7">>, {"pixels", "xticks", "yticks", "xticklabels", "yticklabels"}),
-   O("-dpi", <<"50", "200">>, "dpi", <<"50", "200">>, {"pixels"}),
+   O("-dpi", <<"50", "200">>, "dpi", <<"50", "200">>, {}),
    O("-left", <<"0.2", "0.3">>, "left", <<"0.2", "0.3">>, {"pixels"}),
    O("-right", <<"0.8", "0.7">>, "right", <<"0.8", "0.7">>, {"pixels"}),
    O("-top", <<"0.8", "0.85">>, "top", <<"0.8", "0.85">>, {"pixels"}),
